@@ -159,6 +159,8 @@ def build_program(states, rng, per_sig=6, kinds=("function",), max_sigs=None):
             base.update(verbose=11, store="_V11")
         elif n % 6 == 1:
             base.update(verbose=1, store="_V1")          # the default verbosity
+        if n % 4 == 2 and kind == "function":
+            base.update(pickled=True)                    # the wrapper went through pickle
         for st in chosen:
             a, k = cx(st, names, val_for(st))
             add(dict(base, args=a, kwargs=k, mode="check"), role="check_before", cls=(n, image(st)))
